@@ -1,4 +1,5 @@
 import OrsoVerif.Model.RowCodec
+import OrsoVerif.Model.RowGlue
 import OrsoVerif.Lemmas.RowBytes
 import OrsoVerif.Lemmas.MsgPackRoundtrip
 import OrsoVerif.Lemmas.RowStream
@@ -63,9 +64,13 @@ theorem generated_from_bytes_eq_model (data : Bytes) :
           | _ => simp [castList]
 
 /-- **The framing of every theorem below is `Row.as_bytes` as written** (after `packb` and the clock):
-the cap test and the returned `+` chain with both `to_bytes` calls compute `encodeFrame`. -/
-theorem generated_as_bytes_eq_model (ts : Nat) (payload : Bytes) :
-    Gen.RowFns.as_bytes_frame ts payload = encodeFrame ts payload := by
+the cap test and the returned `+` chain with both `to_bytes` calls compute `encodeFrame` — for either kind of
+row object (`d`: does `self` have a `__dict__`; an instance of `Row` itself has none): the function does not
+touch `self` beyond reading its items, so what it computes cannot depend on `d`.  A `self.x = …` statement
+in `as_bytes` makes the translation `RowGlue.setAttr d …`, `AttributeError` for `d = false`, and this
+theorem no longer checks. -/
+theorem generated_as_bytes_eq_model (d : Bool) (ts : Nat) (payload : Bytes) :
+    Gen.RowFns.as_bytes_frame d ts payload = encodeFrame ts payload := by
   unfold Gen.RowFns.as_bytes_frame encodeFrame
   rw [frameDecision_eq, frameBytes_eq]
   simp only [Gen.Row.maxRecord, intToBytes, pow_consts.1, pow_consts.2.1]
@@ -76,6 +81,16 @@ theorem generated_as_bytes_eq_model (ts : Nat) (payload : Bytes) :
     · by_cases h8 : ts ≥ 18446744073709551616
       · simp [h, h4, h8, catBytes]
       · simp [h, h4, h8, catBytes, header, toBytes, Gen.Row.bigEndian, Gen.Row.lenWidth, Gen.Row.tsWidth]
+
+/-- The translated functions on a concrete row: emitted, decoded back, torn and extended; the same record for a row
+object without and with a `__dict__`.  (Placed here: counted against the `generated_*` theorem above if it breaks.) -/
+example :
+    (Gen.RowFns.as_bytes_frame false 7 [0x92, 0x01, 0xa1, 0x61]).toOption.map (fun r =>
+      ((Gen.RowFns.from_bytes_cython r).toOption, (Gen.RowFns.from_bytes_cython (r.take 17)).toOption,
+        (Gen.RowFns.from_bytes_cython (r ++ [0])).toOption, r.length))
+      = some (some [.val (.int 1), .val (.str "a")], none, none, 18) ∧
+    (Gen.RowFns.as_bytes_frame false 7 [0x90]).toOption = (Gen.RowFns.as_bytes_frame true 7 [0x90]).toOption := by decide
+
 
 /-! ## Framing -/
 
@@ -379,8 +394,8 @@ clock) and `Gen.RowFns.from_bytes_cython` (the decoder as written) in place of t
 
 /-- **Round trip and acceptance, of the code as written**: whatever the translated `as_bytes` emits for the
 packed form of a row without reserved items, the translated `from_bytes_cython` turns back into that row. -/
-theorem code_roundtrip (ts : Nat) (row : List PyVal) (p r : Bytes) (hp : packRow row = some p)
-    (h : Gen.RowFns.as_bytes_frame ts p = .ok r) (hr : NoReserved row) :
+theorem code_roundtrip (d : Bool) (ts : Nat) (row : List PyVal) (p r : Bytes) (hp : packRow row = some p)
+    (h : Gen.RowFns.as_bytes_frame d ts p = .ok r) (hr : NoReserved row) :
     Gen.RowFns.from_bytes_cython r = .ok (row.map Item.val) := by
   rw [generated_as_bytes_eq_model] at h
   rw [generated_from_bytes_eq_model]
@@ -392,7 +407,7 @@ theorem code_roundtrip (ts : Nat) (row : List PyVal) (p r : Bytes) (hp : packRow
 /-- **Torn, extended and header-altered records are rejected with a data error, of the code as written**:
 every strict prefix, every non-empty extension, every other version nibble and every other length field of
 a record the translated `as_bytes` emits makes the translated `from_bytes_cython` raise `DataError`. -/
-theorem code_alterations_rejected (ts : Nat) (p r : Bytes) (h : Gen.RowFns.as_bytes_frame ts p = .ok r) :
+theorem code_alterations_rejected (d : Bool) (ts : Nat) (p r : Bytes) (h : Gen.RowFns.as_bytes_frame d ts p = .ok r) :
     (∀ k, k < r.length → ∃ e, Gen.RowFns.from_bytes_cython (r.take k) = .error e ∧ e.isDataError = true) ∧
     (∀ s, s ≠ [] → Gen.RowFns.from_bytes_cython (r ++ s) = .error .badLength) ∧
     (∀ b : UInt8, (b.toNat &&& 240) ≠ 16 → Gen.RowFns.from_bytes_cython (r.set 0 b) = .error .malformed) ∧
@@ -405,6 +420,77 @@ theorem code_alterations_rejected (ts : Nat) (p r : Bytes) (h : Gen.RowFns.as_by
   · exact extended_rejected unpackRow ts p r s h hs
   · exact version_altered_rejected unpackRow ts p r h b hb
   · exact length_altered_rejected unpackRow ts p r h l0 l1 l2 l3 hne
+
+/-! ## The Python glue: `Row.from_bytes` as written, and the kind of row object `as_bytes` is called on
+
+The compiled decoder is reached through `Row.from_bytes` (orso/row.py:131-141) and the encoder runs on a row
+*object*.  Both are translated from the working tree (`Gen.RowFns.from_bytes`; the `selfHasDict` argument of
+`Gen.RowFns.as_bytes_frame`), with outcomes the codec alone never has: a return value that is not a row, an
+exception of the glue's own (`RowGlue.Out`). -/
+
+/-- **`Row.from_bytes` as written is "call the decoder, wrap its tuple in `cls`"** — nothing in front of the call,
+nothing behind it. -/
+theorem generated_glue_eq_model (data : Bytes) : Gen.RowFns.from_bytes data = RowGlue.fromBytes data := by
+  unfold Gen.RowFns.from_bytes RowGlue.fromBytes
+  rw [generated_from_bytes_eq_model]
+
+/-- (Placed here so that, should it stop checking, it is counted against the theorem above: it speaks about the same
+generated definition.)  Non-vacuity of the glue theorems: tears at 0 and at 1 byte are data errors (not an `IndexError` of the glue);
+the smallest record with a bit of the unguarded flags byte set is a row (not `None`); an emitted record, torn in the
+middle, extended. -/
+example :
+    Gen.RowFns.from_bytes [] = .raised .malformed ∧ Gen.RowFns.from_bytes [16] = .raised .malformed ∧
+    Gen.RowFns.from_bytes [16, 1, 0, 0, 0, 1, 0, 0, 0, 0, 0, 0, 0, 0, 0x90] = .row [] ∧
+    Gen.RowFns.from_bytes [16, 0, 0, 0, 0, 2, 0, 0, 0, 0, 0, 0, 0, 7, 0x91, 1] = .row [.val (.int 1)] ∧
+    Gen.RowFns.from_bytes [16, 0, 0, 0, 0, 2, 0, 0, 0, 0, 0, 0, 0, 7, 0x91] = .raised .badLength ∧
+    Gen.RowFns.from_bytes [16, 0, 0, 0, 0, 2, 0, 0, 0, 0, 0, 0, 0, 7, 0x91, 1, 10] = .raised .badLength := by decide
+
+/-- **Whatever the buffer, `Row.from_bytes` ends in a row or in the decoder's own exception** — the decoder's
+outcome, unchanged: it never answers with something that is not a row (`None`), never raises an exception of its
+own (`IndexError` on a buffer shorter than an index it reads).  ("… is rejected with a data error instead of being
+decoded …": the rejection the guards produce is what the caller sees.) -/
+theorem glue_outcome (data : Bytes) :
+    (∃ items, Gen.RowFns.from_bytes data = .row items ∧ decodeRow data = .ok items) ∨
+    (∃ e, Gen.RowFns.from_bytes data = .raised e ∧ decodeRow data = .error e) := by
+  rw [generated_glue_eq_model]
+  unfold RowGlue.fromBytes RowGlue.callDecoder RowGlue.rowNew
+  cases h : decodeRow data with
+  | error e => exact .inr ⟨e, rfl, rfl⟩
+  | ok t => exact .inl ⟨t, rfl, rfl⟩
+
+/-- **Round trip through the glue, for every kind of row object**: the record `as_bytes` emits for a row without
+reserved items — whether or not the object has a `__dict__` — comes back from `Row.from_bytes` as a row with the
+same items in the same order. -/
+theorem glue_roundtrip (d : Bool) (ts : Nat) (row : List PyVal) (p r : Bytes) (hp : packRow row = some p)
+    (h : Gen.RowFns.as_bytes_frame d ts p = .ok r) (hr : NoReserved row) :
+    Gen.RowFns.from_bytes r = .row (row.map Item.val) := by
+  rw [generated_glue_eq_model]
+  unfold RowGlue.fromBytes RowGlue.callDecoder RowGlue.rowNew
+  rw [← generated_from_bytes_eq_model, code_roundtrip d ts row p r hp h hr]
+
+/-- **Torn, extended and header-altered records are rejected with a data error by `Row.from_bytes`** (every tear
+point from 0 on: the empty buffer and the one-byte buffer included). -/
+theorem glue_alterations_rejected (d : Bool) (ts : Nat) (p r : Bytes) (h : Gen.RowFns.as_bytes_frame d ts p = .ok r) :
+    (∀ k, k < r.length → (Gen.RowFns.from_bytes (r.take k)).isDataError = true) ∧
+    (∀ s, s ≠ [] → Gen.RowFns.from_bytes (r ++ s) = .raised .badLength) ∧
+    (∀ b : UInt8, (b.toNat &&& 240) ≠ 16 → Gen.RowFns.from_bytes (r.set 0 b) = .raised .malformed) ∧
+    (∀ l0 l1 l2 l3 : UInt8, [l0, l1, l2, l3] ≠ (r.drop 2).take 4 →
+      Gen.RowFns.from_bytes (r.take 2 ++ [l0, l1, l2, l3] ++ r.drop 6) = .raised .badLength) := by
+  obtain ⟨h1, h2, h3, h4⟩ := code_alterations_rejected d ts p r h
+  simp only [generated_glue_eq_model, RowGlue.fromBytes, ← generated_from_bytes_eq_model]
+  refine ⟨fun k hk => ?_, fun s hs => ?_, fun b hb => ?_, fun l0 l1 l2 l3 hne => ?_⟩
+  · obtain ⟨e, he, hd⟩ := h1 k hk
+    rw [he]; exact hd
+  · rw [h2 s hs]; rfl
+  · rw [h3 b hb]; rfl
+  · rw [h4 l0 l1 l2 l3 hne]; rfl
+
+/-- **The kind of row object is not an input of the encoder**: an instance of `Row` itself (no `__dict__`), of a
+class made by `Row.create_class`, of a user subclass, a row handed back by `from_bytes` — the same clock and
+payload give the same outcome, record or refusal. -/
+theorem object_kind_irrelevant (d d' : Bool) (ts : Nat) (payload : Bytes) :
+    Gen.RowFns.as_bytes_frame d ts payload = Gen.RowFns.as_bytes_frame d' ts payload := by
+  rw [generated_as_bytes_eq_model, generated_as_bytes_eq_model]
 
 /-! ## Arbitrary buffers: the decoder's outcome is one of four, each with its exact cause -/
 
@@ -592,12 +678,5 @@ example : fromtimestamp (some (.int (-62135510400))) = some (.datetime (.int (-6
     fromtimestamp (some (.float 0x424d7ffa20c00000)) = none ∧
     fromtimestamp (some (.float 0x7ff8000000000000)) = none ∧ fromtimestamp (some (.float 0xfff0000000000000)) = none ∧
     fromtimestamp (some (.str "0")) = none ∧ fromtimestamp none = none := by decide
-
-/-- The translated functions on a concrete row: emitted, decoded back, torn and extended. -/
-example :
-    (Gen.RowFns.as_bytes_frame 7 [0x92, 0x01, 0xa1, 0x61]).toOption.map (fun r =>
-      ((Gen.RowFns.from_bytes_cython r).toOption, (Gen.RowFns.from_bytes_cython (r.take 17)).toOption,
-        (Gen.RowFns.from_bytes_cython (r ++ [0])).toOption, r.length))
-      = some (some [.val (.int 1), .val (.str "a")], none, none, 18) := by decide
 
 end C01
